@@ -207,9 +207,11 @@ int io::stream::dispatch::process(const struct message *msg) const
 			return BadValue;
 		}
 		if ((ans = srm._wait.handler(rid))) {
-			int ret = ans->cmd(ans->arg, &tmp);
+			/* unlink before call: handler may arm new requests (slots move, table may be replaced) */
+			int (*fcn)(void *, void *) = ans->cmd;
+			void *arg = ans->arg;
 			ans->cmd = 0;
-			return ret;
+			return fcn(arg, &tmp);
 		}
 		error(_func, "%s (id = %08" PRIx64 ")", MPT_tr("unknown reply id"), rid);
 		return BadValue;
